@@ -12,6 +12,12 @@ CHECKS = {
  'C12': dict(level='exploration', tech='runtime monitor: public Love-number helpers, functional API and layered solver called on random bodies; oracle = independently evaluated closed form and published compliances',
              text='Randomised exploration over l=2..7 and the full parameter ranges; every helper is compared with the closed form to a few ulp, the functional API to 1e-12 and the layered solver within its integration budget.',
              note='Solver cross-check uses K=1e7*max(|mu|,rho g R) as the incompressible limit; closed form and compliances are re-implemented in harness/physics.py.', ref='4/C12'),
+ 'C17': dict(level='exploration', tech='runtime monitor: relation oracle on the real conversion helpers (interpreted + compiled twins) and a history monitor observing the orbit getters after every update step',
+             text='Randomised exploration: 30 decades of inputs through every inverse pair and twin pair, BadValueError domains, and random 12-step orbit-update histories (period/frequency/semi-major axis; orbit and world setters; instance/name/index signatures; scalars and arrays) with Kepler III and P=2pi/n checked after every step.',
+             note='Tolerances: inverses 32 ulp, twins 16 ulp, Kepler 1e-13. One open known finding (AU constant of the compiled twin).', ref='4/C17'),
+ 'C19': dict(level='exploration', tech='runtime monitor: metamorphic relations (additivity, halving, monotone pairs, bounds, exact liquid values) evaluated on the real compiled and interpreted functions',
+             text='Randomised exploration over times, masses, isotope tables, temperature contrasts, thicknesses, viscosities, melt fractions (incl. window edges) and model parameters; scalar and array calls.',
+             note='Equalities to 4-16 ulp, monotonicity with 2 ulp slack; Arrhenius law with temperature prefactor only required to be non-increasing where (E+PV)/(RT)>1.', ref='4/C19'),
 }
 NA = []
 def main():
